@@ -225,11 +225,13 @@ class Explorer:
         return TOP
 
     # ------------------------------------------------------------------ exploration
-    def run(self):
+    def run(self, args=None):
+        """args: optional {local: abstract value} giving (some of) the parameters a value."""
         b = self.b
         env0 = {}
         for l in range(1, b.fn["arg_count"] + 1):
             env0[l] = ("input", l)
+        env0.update(args or {})
         stack = [(0, env0, 0)]
         while stack:
             self.steps += 1
